@@ -4,6 +4,7 @@ import (
 	"bytes"
 	"errors"
 	"io"
+	"sort"
 	"strconv"
 	"strings"
 
@@ -156,7 +157,15 @@ func newSVGContext(root *html.Node, baseURL string, urlFetcher utils.UrlFetcher)
 
 // Handle inheritance of different defined elements lists.
 func (tree *svgContext) inheritDefs() {
-	for _, element := range tree.defs {
+	// a cycle of references is cut where the traversal meets it first : visit
+	// the definitions in a fixed order, not in the order of the map
+	ids := make([]string, 0, len(tree.defs))
+	for id := range tree.defs {
+		ids = append(ids, id)
+	}
+	sort.Strings(ids)
+	for _, id := range ids {
+		element := tree.defs[id]
 		if t := element.tag; t == "linearGradient" || t == "radialGradient" || t == "pattern" {
 			tree.inheritElement(element)
 		}
